@@ -923,6 +923,32 @@ func finish(c *Ctx) int {
 	if len(knownHit) > 0 {
 		cov["known_findings_reproduced"] = knownHit
 	}
+	// Two-part checks (bin/vcheck runs one binary after the other): fold the
+	// evidence the first part has just written into this one.
+	prevViol := 0
+	if os.Getenv("VERIF_MERGE_PREV") != "" {
+		if pb, err := os.ReadFile(filepath.Join(VerifDir, "evidence", c.ID+".json")); err == nil {
+			var prev struct {
+				Coverage   map[string]any `json:"coverage"`
+				Violations int            `json:"violations"`
+				WallS      float64        `json:"wall_s"`
+			}
+			if json.Unmarshal(pb, &prev) == nil && prev.Coverage != nil {
+				num := func(v any) int64 {
+					f, _ := v.(float64)
+					return int64(f)
+				}
+				cov["first_half"] = prev.Coverage
+				cov["evaluations"] = ev + num(prev.Coverage["evaluations"])
+				cov["distinct_nontrivial"] = dn + num(prev.Coverage["distinct_nontrivial"])
+				if e, ok := prev.Coverage["exhaustive"].(bool); ok && !e {
+					cov["exhaustive"] = false
+				}
+				prevViol = prev.Violations
+				wall += prev.WallS
+			}
+		}
+	}
 	evd := map[string]any{
 		"property_id": c.ID,
 		"tier":        c.Tier,
@@ -931,7 +957,7 @@ func finish(c *Ctx) int {
 		"coverage":    cov,
 		"assumptions": append([]string{}, c.Check.Assumptions...),
 		"wall_s":      wall,
-		"violations":  newViol,
+		"violations":  newViol + prevViol,
 	}
 	_ = os.MkdirAll(filepath.Join(VerifDir, "evidence"), 0o755)
 	b, _ := json.MarshalIndent(evd, "", " ")
